@@ -80,7 +80,7 @@ def run_fa(case):
                     raise Fail("stale_answer_%s" % it.kind, "step %d: %s_accepts_word(%r) = %r on an object that was %s, but its current content %s the word; history: %s" %
                                (k, it.kind, w, got, "reused" if nqueries else "fresh", "accepts" if want else "rejects", [s["op"] + ":" + str(s.get("what", "")) for s in case["steps"][:k + 1]]))
                 nqueries += 1
-        elif op == "to_regexp" and it.kind == "dfa" and len(it.spec["Q"]) <= 4 and "start" not in it.spec["Q"] and "accept" not in it.spec["Q"]:
+        elif op == "to_regexp" and it.kind == "dfa" and len(it.spec["Q"]) <= 4:
             from ref import regex as RX
             from bridge import regex as BR
             from gambatools.regexp_algorithms import dfa_to_regexp
@@ -156,10 +156,24 @@ def run_fa(case):
                 a = labels[step["c"] % len(labels)]
                 if [p, a, q] not in spec["d"]:
                     spec["d"].append([p, a, q])
-                if (p, a) in obj.delta:
+                if step["c"] % 2 == 0:
+                    # the library's own idiom for transition maps that supply missing entries (defaultdict): add to the entry, existing or not
+                    try:
+                        obj.delta[p, a].add(q)
+                    except KeyError:
+                        obj.delta[p, a] = {q}
+                elif (p, a) in obj.delta:
                     obj.delta[p, a].add(q)
                 else:
                     obj.delta[p, a] = {q}
+            elif what == "set_initial":
+                # the fields are public: a new value is assigned to the attribute (the library does the same to PDAs in its in_place functions)
+                spec["q0"] = q
+                obj.q0 = q
+            elif what == "replace_final_set":
+                newF = [x for x in Q if (x in spec["F"]) != (x in (p, q))]
+                spec["F"] = newF
+                obj.F = set(newF)
             elif what == "make_total_in_place" and it.kind == "dfa":
                 lib(DA.dfa_make_total_in_place, obj)
                 it.spec = B.snap_dfa(obj)
@@ -175,7 +189,9 @@ def fa_programs(draw, tier, focus="accept"):
     sigma = draw(st.sampled_from([["a"], ["a", "b"], ["a", "b"]]))
     steps = []
     for j in range(draw(st.integers(1, 2))):
-        if focus in ("regexp", "iso"):
+        if focus == "minimize":
+            steps.append({"op": "new", "spec": draw(G.inflated_dfa_specs(max_states=4, max_sigma=2)) if draw(st.booleans()) else draw(G.dfa_specs(max_states=5, sigma=sigma))})
+        elif focus in ("regexp", "iso"):
             spec = draw(G.dfa_specs(max_states=3 if focus == "regexp" else 4, sigma=sigma, pool=G.POOL[:12]))
             steps.append({"op": "new", "spec": spec})
             if focus == "iso" and draw(st.booleans()):
@@ -205,9 +221,10 @@ def fa_programs(draw, tier, focus="accept"):
         elif focus == "iso" and k <= 5:
             steps.append({"op": "iso", "i": i, "j": draw(st.integers(0, 5))})
         elif k <= 6:
-            steps.append({"op": "derive", "i": i, "what": draw(st.sampled_from(derive_names if focus == "accept" else ["complement", "remove_unreachable", "reverse", "minimize"]))})
+            choice = derive_names if focus == "accept" else (["minimize", "quotient", "hopcroft"] if focus == "minimize" else ["complement", "remove_unreachable", "reverse", "minimize"])
+            steps.append({"op": "derive", "i": i, "what": draw(st.sampled_from(choice))})
         elif k <= 8:
-            steps.append({"op": "mutate", "i": i, "what": draw(st.sampled_from(["flip_final", "redirect", "add_transition", "add_transition", "make_total_in_place"])),
+            steps.append({"op": "mutate", "i": i, "what": draw(st.sampled_from(["flip_final", "redirect", "add_transition", "add_transition", "make_total_in_place", "set_initial", "replace_final_set"])),
                           "a": draw(st.integers(0, 5)), "b": draw(st.integers(0, 5)), "c": draw(st.integers(0, 3))})
         else:
             steps.append({"op": "new", "spec": draw(G.dfa_specs(max_states=3, sigma=sigma))})
